@@ -623,6 +623,19 @@ func writeClaims(prop string, results []*FuncResult) {
 	for _, r := range results {
 		all := true
 		var fl []string
+		// The global invariants are assumed at every loop head; that is justified only if the
+		// function re-establishes them at every back edge. If one of those obligations is not
+		// proved, nothing of the function is claimed.
+		unjustified := ""
+		for _, o := range r.Obls {
+			if strings.Contains(o.Name, ".ginv.") && strings.Contains(o.Name, "#loop") && o.Result != "" && o.Result != "proved" {
+				unjustified = o.Name
+			}
+		}
+		if unjustified != "" {
+			fmt.Printf("not claimed (whole function): %s -- loop-head assumption %s is %s\n", r.Name(), unjustified, "not re-established")
+			continue
+		}
 		for _, o := range r.Obls {
 			if o.Result == "" || strings.Contains(o.Name, "@") {
 				continue
